@@ -872,6 +872,9 @@ func (it *c11Interp) execFor(fr *c11Frame, st *c11St, x *ast.ForStmt) []c11Out {
 			}
 		}
 	}
+	if it.concrete {
+		return append(out, it.execForConcrete(fr, cur, x)...)
+	}
 	for _, c := range cur {
 		if it.onLoop != nil {
 			it.onLoop(fr, c, x, "init")
@@ -896,6 +899,13 @@ func (it *c11Interp) execRange(fr *c11Frame, st *c11St, x *ast.RangeStmt) []c11O
 	var out []c11Out
 	for _, r := range it.eval(fr, st, x.X) {
 		c := r.st
+		if it.concrete {
+			if o, ok := it.execRangeConcrete(fr, c, x, r.v); ok {
+				out = append(out, o...)
+				continue
+			}
+			c.note("range over a value that is not concrete")
+		}
 		if it.onLoop != nil {
 			it.onLoop(fr, c, x, "init")
 		}
@@ -1014,6 +1024,9 @@ func (it *c11Interp) callInline(fr *c11Frame, st *c11St, fi *FuncInfo, recv *c11
 func (it *c11Interp) run(fi *FuncInfo, bind map[types.Object]*c11V) ([]c11Out, *c11Frame) {
 	fr := &c11Frame{pk: fi.Pkg, info: fi.Pkg.TypesInfo, fi: fi}
 	st := c11NewSt()
+	for id, o := range it.initHeap {
+		st.heap[id] = o.clone()
+	}
 	info := fr.info
 	def := func(nm *ast.Ident) {
 		o := info.Defs[nm]
